@@ -61,7 +61,7 @@ impl Scenario for FrameRender {
         false
     }
     fn quick_runs(&self, _f: &str) -> u64 {
-        4800
+        9600
     }
     fn chunk(&self) -> u64 {
         50
